@@ -461,6 +461,10 @@ def power(a, b):
                    z3.Implies(z3.And(ta >= 0, ta <= 1, tb >= 0), z3.And(p <= 1, p >= 0)),
                    z3.Implies(z3.And(ta >= 0, ta <= 1, tb >= 1), p <= ta),
                    z3.Implies(z3.And(ta >= 1, tb >= 1), p >= ta)))
+    # (u^v)^w = u when v*w = 1 and u >= 0
+    if z3.is_app(ta) and ta.decl().name() == 'pow' and ta.num_args() == 2:
+        u, v = ta.arg(0), ta.arg(1)
+        c.axiom(z3.Implies(z3.And(u >= 0, v * tb == 1), p == u))
     c.pow_pair(ta, tb, p)
     return SV(p)
 
@@ -823,6 +827,8 @@ class Ctx(object):
     def side(self, name, cond, where=''):
         """engine generated side obligation (index in bounds, domain of sqrt/log, ...)"""
         if not self.side_on:
+            return
+        if name.endswith('-domain') and self.__dict__.get('domain_off', 0):
             return
         if isinstance(cond, SV):
             cond = zbool(cond)
